@@ -486,6 +486,7 @@ class Result:
 
 
 _RECHECK_RATE = int(os.environ.get("VERIF_RECHECK_RATE", "0") or 0)
+_SEQ = [0]  # unsat answers seen by this worker process: every _RECHECK_RATE-th one is re-decided
 RECHECK = {"second-solver (cvc5) re-decided": 0, "second-solver agrees (unsat)": 0, "second-solver unknown/error (no weight)": 0}
 
 
@@ -518,10 +519,11 @@ def second_solver(smt2, timeout_ms=20000):
 
 
 def _recheck(ctx, negated, res, label):
-    """Second opinion on a validity query z3 answered `unsat`: a deterministic sample (1 in VERIF_RECHECK_RATE, chosen by a hash
-    of label, path number and obligation number) is dumped with Solver.to_smt2() and re-decided by cvc5.  `sat` there is a harness error (the two solvers
+    """Second opinion on a validity query z3 answered `unsat`: a systematic sample (every VERIF_RECHECK_RATE-th unsat
+    answer of a worker process) is dumped with Solver.to_smt2() and re-decided by cvc5.  `sat` there is a harness error (the two solvers
     disagree about the encoding), `unknown` / errors are counted and carry no weight."""
-    if zlib.crc32(f"{label}|{res.paths}|{res.obligations}".encode()) % _RECHECK_RATE:
+    _SEQ[0] += 1
+    if _SEQ[0] % _RECHECK_RATE:
         return
     s2 = z3.Solver()
     s2.add(ctx.solver.assertions())
